@@ -169,8 +169,10 @@ def _one_solve(solver, inst, use_call):
 class C03(Check):
     pid = "C03"
     assumptions = [
-        "non-flexible instance with durations >= 0 and at least one operation (the property's scope; an "
-        "instance without any operation makes AddMaxEquality([]) infeasible — reported separately)",
+        "non-flexible instance with durations >= 0 (instances without operations included since fix a437e37)",
+        "total duration below 2^53: beyond that CP-SAT itself reports OPTIMAL for makespans 1-2 above the optimum "
+        "(observed on conflict-free instances with durations 2^53 +- 3: its objective bookkeeping is in doubles), "
+        "i.e. the solver contract below does not hold there; the generated instances stay far below",
         "solver contract (Section hypotheses of C03_opt): the values CP-SAT returns satisfy the constraint "
         "set under the semantics of spec/CpSatSpec.v, and status OPTIMAL means no satisfying assignment has "
         "a smaller objective; the first half is re-checked on every solver answer by the extracted satb",
@@ -365,7 +367,9 @@ class C03(Check):
                 fails.append(Failure("tie", "solver-contract",
                                      f"CP-SAT status {status} but its values do not satisfy cp_encode I under "
                                      "the semantics of CpSatSpec.v", observed=obs["values"]))
-            if obs["objective"] != [objective]:
+            # (the response's objective_value is a C double: beyond 2^53 it is the makespan variable ROUNDED, so
+            # the comparison is made after the same int -> double conversion)
+            if [float(x) for x in obs["objective"]] != [float(objective)]:
                 fails.append(Failure("tie", "solver-contract-objective",
                                      "objective value of the response differs from the makespan variable",
                                      expected=objective, observed=obs["objective"]))
